@@ -26,6 +26,7 @@ CHILD_WALL_S = 400         # harness safety only; never a verdict
 SHRINK_EVALS = 500
 SHRINK_TICKS = 25_000_000   # simulated time a single minimisation may spend
 MAX_BAD_CASES = 10          # a round stops early once this many cases violated (keeps broken trees cheap)
+ROUND_TICK_CAP = 150_000_000 # once something violated: simulated time after which a round stops (a clean round needs < 10 M)
 MAX_REPORTED = 4            # distinct (class, site) violations minimised per round
 
 
@@ -175,8 +176,8 @@ def do_round(pid, seed, rnd, tier):
     out['step_notes'] = []
     out['step_argsigs'] = []
     for i, case in enumerate(cases):
-        if bad_cases >= MAX_BAD_CASES:
-            out['aborted_after'] = i      # deterministic: depends only on the outcomes so far
+        if bad_cases >= MAX_BAD_CASES or (bad_cases > 0 and out['ticks'] > ROUND_TICK_CAP):
+            out['aborted_after'] = i      # deterministic: depends only on the outcomes (and tick counts) so far
             break
         if logging_replica:
             case['logging'] = True
